@@ -48,6 +48,13 @@ def check(run):
     nocache_rule(run, 'C07-NOSHARED', p, ['tdda.constraints.db.drivers', 'tdda.constraints.db.constraints', 'tdda.constraints.baseconstraints'],
                  'statistics describe the table or frame at hand: no memoising decorator and no class-level container used as a cache in the '
                  'database handlers or the shared discovery/verification base (such a cache is keyed by name only and shared by every connection)')
+    from .common import observed_rule
+    calc = p.cls('PandasConstraintCalculator')
+    n = observed_rule(run, 'C07-OBSERVED', p, list(calc.methods.values()),
+                      'every statistic the pandas calculator returns is taken from the values present in the column: no calc_* method '
+                      'reads a categorical column\'s declared levels (.cat.categories, an unfiltered value_counts()), which include '
+                      'categories that no record holds')
+    run.floor('C07-OBSERVED', n, 15)
 
 
 def thresh(run, p, disc, gmap, gm):
